@@ -181,6 +181,12 @@ def check(model: Model, run: Run) -> None:
     run.rule('C01.R5', 'MP_REACH_NLRI = AFI(2) SAFI(1) len(next hop)(1) next hop reserved(1)=0 NLRIs, next hop = RD-size zero bytes + address with the RD size from Family.size; MP_UNREACH_NLRI = AFI SAFI NLRIs; attribute codes 14 / 15', floor=5)
     _r5_mp(model, run, folder)
 
+    # ------------------------------------------------------------------ R8 what is sent fits the session it is sent on
+    run.rule('C01.R8', 'an UPDATE is a valid message of ITS session (4096 or 65535 bytes): in UpdateCollection.messages a prefix is added to a buffer only under a room test that measures the bytes packed for this session (with the ADD-PATH path identifier when negotiated) - shared with C09.R3', floor=2)
+    from .C09 import growth_rule
+
+    growth_rule(model, run)
+
     # ------------------------------------------------------------------ R6 next-hop self
     run.rule('C01.R6', 'next-hop self is resolved before the RIB: every OutgoingRIB.add_to_rib* / del_from_rib call from configuration/ and reactor/api/ passes Neighbor.resolve_self(route) (or a cached/already resolved route), and _update_rib refuses an unresolved sentinel', floor=4)
     _r6_self(model, run)
